@@ -80,6 +80,9 @@ func genSettleScenario(r *kernel.Rand, prop string) *kernel.Scenario {
 	} else if prop == "C04" && r.Bool(0.15) {
 		c["lazy_settle"] = 1
 	}
+	if prop == "C04" && nsub == 0 && r.Bool(0.15) {
+		c["late_watch_after"] = int64(r.Range(1, 3))
+	}
 	if prop == "C04" {
 		// adversarial registrations of outdated states by side "adv" at drawn instants
 		adv := r.Intn(2)
@@ -153,6 +156,21 @@ func execSettle(t *testing.T, sc *kernel.Scenario, trace bool) *kernel.Result {
 		}
 		var advWG = &p.wg
 		payTO := 60 * time.Second
+		lateWatch := 0
+		startLateWatch := func() {
+			// the honest side starts watching its ledger channel only now, several
+			// versions into the channel's life (at the latest before anything is
+			// registered: the property is about a client that is watching)
+			lateWatch = 0
+			p.n[honest].Watch(p.chans[0][honest])
+			s.Count("fault.watch_started_late", 1)
+			time.Sleep(time.Millisecond)
+		}
+		if prop == "C04" && honest >= 0 && honest < 2 {
+			if lateWatch = int(sc.Cfg("late_watch_after", 0)); lateWatch > 0 {
+				p.watchSide[honest] = false // (started by the driver after that many payments)
+			}
+		}
 		settled := false
 		for i := range sc.Steps {
 			st := &sc.Steps[i]
@@ -173,6 +191,11 @@ func execSettle(t *testing.T, sc *kernel.Scenario, trace bool) *kernel.Result {
 				p.cancelOnEnable = st.Int("coe") == 1
 				p.pay(i, p.chans[0][side], side, st.Int("amt"), payTO, false)
 				p.cancelOnEnable = false
+				if lateWatch > 0 {
+					if lateWatch--; lateWatch == 0 {
+						startLateWatch()
+					}
+				}
 			case "sub-open":
 				p.subOpen(i, st)
 			case "sub-pay":
@@ -191,6 +214,9 @@ func execSettle(t *testing.T, sc *kernel.Scenario, trace bool) *kernel.Result {
 					p.midClose = nil
 				}
 			case "adv-register":
+				if lateWatch > 0 {
+					startLateWatch()
+				}
 				if adv >= 0 {
 					f := func() { st0.advRegister(i, st) }
 					if st.Int("async") == 1 {
@@ -205,6 +231,9 @@ func execSettle(t *testing.T, sc *kernel.Scenario, trace bool) *kernel.Result {
 					continue
 				}
 				settled = true
+				if lateWatch > 0 {
+					startLateWatch()
+				}
 				p.wg.Wait()
 				if prop == "C04" {
 					st0.finish(i, st)
